@@ -39,7 +39,8 @@ NCPU = os.cpu_count() or 4
 # VERIF_COVER=<dir>: build every harness / tool binary with -cover over the csproto packages and collect the counters there
 # (bin/cover reports which csproto functions the conformance runs actually execute)
 COVER = os.environ.get("VERIF_COVER")
-COVER_FLAGS = ["-cover", "-coverpkg=github.com/CrowdStrike/csproto/..."] if COVER else []
+# (the main package has to be among the instrumented ones or the binary never writes its counters)
+COVER_FLAGS = ["-cover", "-coverpkg=github.com/CrowdStrike/csproto/...,verif/..."] if COVER else []
 
 
 class Inconclusive(Exception):
